@@ -85,11 +85,35 @@ impl BlockRead for VecReader {
 /// Writes `entries` (after a filler that leaves the cursor at in-block offset `start`) and reads
 /// everything back. Returns the number of bytes written.
 pub fn roundtrip(start: usize, entries: &[Vec<u8>]) -> Result<usize, String> {
+    roundtrip_after(None, start, entries)
+}
+
+/// Like `roundtrip`, but the log begins with the First frame of an entry whose other frames never came (what a torn
+/// write leaves behind): everything written after it must still be read back identical.
+pub fn roundtrip_after(dangling_first: Option<usize>, start: usize, entries: &[Vec<u8>]) -> Result<usize, String> {
     let result = guarded(|| -> Result<usize, String> {
-        let mut writer = verif_api::record_writer(VecWriter::default());
+        let mut initial = VecWriter::default();
+        if let Some(len) = dangling_first {
+            let payload = crate::util::fill(0xDA, len, 0);
+            initial.bytes.extend_from_slice(&crate::damage::craft_frame(2, &payload));
+        }
+        let dangling_len = initial.bytes.len();
+        let mut writer = verif_api::record_writer(initial);
         let mut expected: Vec<&[u8]> = Vec::new();
         let filler: Vec<u8>;
-        if start >= FRAME_HEADER {
+        if dangling_len > 0 {
+            // the filler is sized so that the cursor still ends at in-block offset `start`
+            if start < dangling_len + FRAME_HEADER {
+                return Err(format!("engine: in-block offset {start} is not reachable after a dangling frame of {dangling_len} bytes"));
+            }
+            filler = crate::util::fill(start as u64, start - dangling_len - FRAME_HEADER, 0);
+            writer.write_record(Raw(&filler)).map_err(|err| format!("write filler: {err}"))?;
+            expected.push(&filler);
+            let cursor = verif_api::underlying(&writer).bytes.len();
+            if cursor % BLOCK != start % BLOCK {
+                return Err(format!("engine: filler left the cursor at {cursor}, wanted in-block offset {start}"));
+            }
+        } else if start >= FRAME_HEADER {
             filler = crate::util::fill(start as u64, start - FRAME_HEADER, 0);
             writer.write_record(Raw(&filler)).map_err(|err| format!("write filler: {err}"))?;
             expected.push(&filler);
@@ -215,7 +239,8 @@ impl Property for C07 {
          oracle = identity, in order, nothing extra. A dense GRID is \
          enumerated, not sampled: remaining-space in {0..40} u {BLOCK-40..BLOCK} (offsets 1..6 are unreachable by \
          construction) x entry length in {0..40} u {k*32761 + d : k in 1..9, |d| <= 20} (thorough: remaining-space up to 120, |d| <= 48) x \
-         follower in {nothing, empty entry, 9-byte entry, entry filling the rest of the block exactly}; plus generated \
+         follower in {nothing, empty entry, 9-byte entry, entry filling the rest of the block exactly}; the 9-byte-follower \
+         cells are repeated with the log beginning with a dangling First frame (what a torn multi-frame write leaves); plus generated \
          sequences of 1..6 entries at generated offsets. route 2 (through files): generated append-dominated histories with \
          lengths aimed at block ends (0..14 bytes before), file ends and the 7-bytes-left case, payloads up to 320 KiB \
          spanning 3 files of 128 KiB, read back with range(..) after a restart and compared with what range(..) returned before the drop (model-free). evaluations = \
@@ -283,6 +308,26 @@ impl Property for C07 {
                     }
                     env.class("grid-cell");
                     env.nontrivial(hash64(&(*start, *length, follower)));
+                    // same cell right after a torn entry (a dangling First frame of 0 / 9 / 300 bytes)
+                    if follower == 2 && *start >= 400 {
+                        for dangling in [0usize, 9, 300] {
+                            env.evals(1);
+                            if let Err(msg) = roundtrip_after(Some(dangling), *start, &entries) {
+                                if msg.starts_with("engine:") {
+                                    return Err(CaseError::Engine(msg));
+                                }
+                                let lens: Vec<usize> = entries.iter().map(|entry| entry.len()).collect();
+                                return Err(CaseError::Violation(Box::new(Failure {
+                                    msg: format!("in-memory round-trip after a dangling First frame of {dangling} bytes, cursor at in-block offset {start}, entry lengths {lens:?}: {msg}"),
+                                    signature: "roundtrip-mismatch-after-dangling-frame".to_string(),
+                                    policy: Policy::DEFAULT,
+                                    ops: Vec::new(),
+                                    extra: json!({"grid": {"start": start, "lengths": lens, "dangling": dangling}}),
+                                })));
+                            }
+                            env.class("grid-cell-after-dangling-first-frame");
+                        }
+                    }
                     if follower == 3 && *length > 30_000 {
                         env.sample(|| json!({"route": "in-memory grid", "start_offset_in_block": start, "entry_lengths": entries.iter().map(|entry| entry.len()).collect::<Vec<_>>()}));
                     }
@@ -298,7 +343,8 @@ impl Property for C07 {
             let start = grid.get("start").and_then(|value| value.as_u64()).unwrap_or(0) as usize;
             let lens: Vec<usize> = grid.get("lengths").and_then(|value| value.as_array()).map(|list| list.iter().map(|item| item.as_u64().unwrap_or(0) as usize).collect()).unwrap_or_default();
             let entries: Vec<Vec<u8>> = lens.iter().enumerate().map(|(idx, len)| crate::util::fill(idx as u64 + 1, *len, 0)).collect();
-            return match roundtrip(start, &entries) {
+            let dangling = grid.get("dangling").and_then(|value| value.as_u64()).map(|value| value as usize);
+            return match roundtrip_after(dangling, start, &entries) {
                 Ok(_) => Ok(()),
                 Err(msg) => Err(CaseError::Violation(Box::new(Failure {
                     msg: format!("in-memory round-trip, cursor at in-block offset {start}, entry lengths {lens:?}: {msg}"),
